@@ -25,9 +25,11 @@ NY(b) == b[4] - b[3]
 Overlap(b, h, w) == \E y \in 0..(h - 1), x \in 0..(w - 1) : InBox(b, y, x)
 
 (* ---------------- Ref ---------------- *)
-ToImageRef(b, pat, h, w) ==
+(* to_image(shape, dtype): the weights (kept doubled: 0, 1, 2 stand for 0, 1/2, 1) are cast to the requested dtype *)
+Cast(dt, w2) == CASE dt = "int" -> 2 * (w2 \div 2) [] dt = "bool" -> (IF w2 > 0 THEN 2 ELSE 0) [] OTHER -> w2
+ToImageRef(b, pat, h, w, dt) ==
   IF ~Overlap(b, h, w) THEN None
-  ELSE [y \in 0..(h - 1) |-> [x \in 0..(w - 1) |-> IF InBox(b, y, x) THEN Weight(pat, y - b[3], x - b[1]) ELSE 0]]
+  ELSE [y \in 0..(h - 1) |-> [x \in 0..(w - 1) |-> IF InBox(b, y, x) THEN Cast(dt, Weight(pat, y - b[3], x - b[1])) ELSE 0]]
 (* cutout element: <<"d", value>> for image data, <<"f">> for the fill value *)
 CutoutRef(b, h, w) ==
   IF ~Overlap(b, h, w) THEN None
@@ -59,12 +61,12 @@ Slices(b, h, w) ==
   ELSE << << <<Max(ymin, 0), Min(ymax, h)>>, <<Max(xmin, 0), Min(xmax, w)>> >>,
           << <<Max(-ymin, 0), Min(ymax - ymin, h - ymin)>>, <<Max(-xmin, 0), Min(xmax - xmin, w - xmin)>> >> >>
 InWin(p, v) == p[1] <= v /\ v < p[2]
-ToImageImpl(b, pat, h, w) ==
+ToImageImpl(b, pat, h, w, dt) ==                \* np.zeros(shape, dtype); image[slices_large] = data[slices_small] (cast on assignment)
   LET s == Slices(b, h, w) IN
   IF s = None THEN None
   ELSE LET ly == s[1][1] lx == s[1][2] sy == s[2][1] sx == s[2][2] IN
        [y \in 0..(h - 1) |-> [x \in 0..(w - 1) |->
-          IF InWin(ly, y) /\ InWin(lx, x) THEN Weight(pat, sy[1] + (y - ly[1]), sx[1] + (x - lx[1])) ELSE 0]]
+          IF InWin(ly, y) /\ InWin(lx, x) THEN Cast(dt, Weight(pat, sy[1] + (y - ly[1]), sx[1] + (x - lx[1]))) ELSE 0]]
 CutoutImpl(b, h, w) ==
   LET s == Slices(b, h, w) IN
   IF s = None THEN None
